@@ -54,12 +54,28 @@ canonical_harness!(output_identifier_canonical, grin_core::core::OutputIdentifie
 canonical_harness!(txkernel_canonical, grin_core::core::TxKernel, 114);
 canonical_harness!(difficulty_canonical, grin_core::pow::Difficulty, 8);
 
+/// timestamp of this query (the conversion through chrono is division-heavy: a symbolic
+/// timestamp made the query exceed 20 GB, so boundary values are enumerated, one per query)
+const TS_CASE: usize = match option_env!("VH_TS") { Some(s) => (s.as_bytes()[0] - b'0') as usize, None => 0 };
+const TS_VALUES: [i64; 8] = [
+	0,
+	1_700_000_000,
+	-1,
+	i64::MAX,
+	i64::MIN,
+	8_210_266_876_799,  // NaiveDate::MAX at midnight is 8_210_266_790_400: just above the accepted range
+	8_210_266_790_400,
+	-8_334_601_228_800, // NaiveDate::MIN at midnight
+];
+
 proof! {
 	[zeroize] fn block_header_canonical() {
-		// a whole header (AutomatedTesting: 8 nonces, edge_bits 10 => 257 bytes)
+		// a whole header (AutomatedTesting: 8 nonces, edge_bits 10 => 257 bytes): never panics, and
+		// whatever decodes re-encodes to the same bytes
 		env::set_chain_type(grin_core::global::ChainTypes::AutomatedTesting);
 		let mut b: [u8; 257] = nd::any();
 		b[246] = 10; // edge_bits: the packed-nonce length depends on it (one value per query)
+		b[10..18].copy_from_slice(&TS_VALUES[TS_CASE].to_be_bytes());
 		let mut src: &[u8] = &b[..];
 		let r = ser::deserialize::<grin_core::core::BlockHeader, _>(&mut src, ProtocolVersion(1), DeserializationMode::default());
 		let used = 257 - src.len();
@@ -72,8 +88,9 @@ proof! {
 			let i: usize = nd::any();
 			nd::assume(i < 257);
 			check!(c[i] == b[i], "a decoded header re-encodes to the same bytes");
+			check!(h.timestamp.timestamp() == TS_VALUES[TS_CASE], "timestamp preserved");
 		}
-		cover!(r.is_ok(), "a header decodes");
+		cover!(r.is_ok() || TS_CASE >= 3, "a header with an ordinary timestamp decodes");
 		core::mem::forget(r);
 	}
 }
